@@ -104,10 +104,21 @@ def star_height(t) -> int:
     return h + 1 if k in ("star", "plus") else h
 
 
+@lru_cache(maxsize=None)
+def has_nullable_repetition_body(t) -> bool:
+    k = t[0]
+    if k in ("atom", "eps", "empty"):
+        return False
+    if k in ("star", "plus") and nullable(t[1]):
+        return True
+    return any(has_nullable_repetition_body(c) for c in t[1:])
+
+
 def re_is_safe(t, s) -> bool:
-    """Python's backtracking engine is exponential on repetitions of nullable or ambiguous bodies; it is used as
-    an additional reference only on short inputs. Longer inputs are cross-checked with `ends_member`."""
-    return len(s) <= 6 and size(t) <= 7
+    """Python's backtracking engine is catastrophically exponential on repetitions whose body can match the empty word
+    ((?:(?:(?:a)?)?)+)+ on 'aab' takes 20 s) and exponential in nesting depth x length otherwise; it is consulted as an
+    additional reference only for short inputs, at most two nested repetitions and no repetition of a nullable body."""
+    return len(s) <= 6 and size(t) <= 7 and star_height(t) <= 2 and not has_nullable_repetition_body(t)
 
 
 def ends(t, s, i, memo):
@@ -186,6 +197,84 @@ def greedy_end(t, s, start):
     if i > start and nullable(t):
         return i
     return None
+
+
+# ---- polynomial reference: ends and viable prefixes by structural recursion ----------------------------------------
+def ends_viable(t, s, i, memo):
+    """(E, V): E = {j : s[i:j] in L(t)}, V = {j : s[i:j] is a prefix of some word of L(t)}. All sub-languages are non-empty
+    (trees are built from atoms), so V is prefix-closed and E is a subset of V. Cost O(|t| * |s|^2); no derivatives involved."""
+    key = (t, i)
+    r = memo.get(key)
+    if r is not None:
+        return r
+    k = t[0]
+    if k == "atom":
+        hit = i < len(s) and s[i] == t[1]
+        r = (frozenset((i + 1,)) if hit else frozenset(), frozenset((i, i + 1)) if hit else frozenset((i,)))
+    elif k == "seq":
+        e1, v1 = ends_viable(t[1], s, i, memo)
+        e, v = set(), set(v1)
+        for j in e1:
+            e2, v2 = ends_viable(t[2], s, j, memo)
+            e |= e2
+            v |= v2
+        r = (frozenset(e), frozenset(v))
+    elif k == "alt":
+        e1, v1 = ends_viable(t[1], s, i, memo)
+        e2, v2 = ends_viable(t[2], s, i, memo)
+        r = (e1 | e2, v1 | v2)
+    elif k == "opt":
+        e1, v1 = ends_viable(t[1], s, i, memo)
+        r = (e1 | {i}, v1 | {i})
+    elif k in ("star", "plus"):
+        e, v = set(), {i}
+        if k == "star":
+            e.add(i)
+        frontier, seen = {i}, set()
+        while frontier:
+            j = frontier.pop()
+            if j in seen:
+                continue
+            seen.add(j)
+            e1, v1 = ends_viable(t[1], s, j, memo)
+            v |= v1
+            for x in e1:
+                e.add(x)
+                if x not in seen:
+                    frontier.add(x)
+        r = (frozenset(e), frozenset(v))
+    else:
+        raise ValueError(k)
+    memo[key] = r
+    return r
+
+
+def p_member(t, s):
+    s = tuple(s)
+    return len(s) in ends_viable(t, s, 0, {})[0]
+
+
+def p_shortest_nonempty_prefix(t, s):
+    s = tuple(s)
+    e = [j for j in ends_viable(t, s, 0, {})[0] if j > 0]
+    return min(e) if e else None
+
+
+def p_greedy_end(t, s, start, memo=None):
+    """the deterministic run: consume while the consumed text is a prefix of some word; succeed iff it then is a word"""
+    s = tuple(s)
+    e, v = ends_viable(t, s, start, {} if memo is None else memo)
+    m = max(v)
+    return m if m > start and m in e else None
+
+
+def p_longest_end(t, s, start, memo=None):
+    s = tuple(s)
+    e = [j for j in ends_viable(t, s, start, {} if memo is None else memo)[0] if j > start]
+    return max(e) if e else None
+
+
+DERIVATIVES_ARE_CHEAP = 9  # derivative-based functions are used as a cross-check only for trees up to this many nodes
 
 
 # ---- translation to Python re (atoms are single characters) -------------------------------------
